@@ -801,10 +801,11 @@ func (comp *Compiler) Compile(stmts []*gripql.GraphStatement, opts *gdbi.Compile
 				return &Pipeline{}, fmt.Errorf(`"aggregate" statement is only valid for edge or vertex types not: %s`, lastType.String())
 			}
 			aggNames := make(map[string]interface{})
-			for _, a := range stmt.Aggregate.Aggregations {
+			for _, a := range stmt.Aggregate.GetAggregations() {
 				if _, ok := aggNames[a.Name]; ok {
 					return &Pipeline{}, fmt.Errorf("duplicate aggregation name '%s' found; all aggregations must have a unique name", a.Name)
 				}
+				aggNames[a.Name] = a
 			}
 			aggs := bson.M{}
 			for _, a := range stmt.Aggregate.Aggregations {
